@@ -48,9 +48,11 @@ Theorem C14_structure : forall fuel main_path main_content r pk,
 Proof. exact (build_structure P parse_lines echo strip walk file_lines check_name find
                                preamble_package preamble_require header_line end_line nl_line). Qed.
 
-(* the same on the bytes of the __lua__ section, for any lexer whose token echo is faithful (this
-   hypothesis is property C06's statement): the main program's bytes are unchanged at the end, and a
-   package required with {use_game_loop=true} is embedded byte for byte *)
+(* the same on the bytes of the __lua__ section, for any lexer whose token echo is byte-faithful: the
+   main program's bytes are unchanged at the end, and a package required with {use_game_loop=true} is
+   embedded byte for byte.  (picotool's echo is byte-faithful except that a quoted string with a
+   non-canonical spelling is re-spelled - C06; the token-level theorems below need only the
+   token-faithful echo.) *)
 Theorem C14_structure_bytes :
   (forall ls q, parse_lines ls = Ok q -> concat (echo q) = concat ls) ->
   (forall c, concat (file_lines c) = c) ->
@@ -139,7 +141,8 @@ Proof. exact (build_fuel P parse_lines echo strip walk file_lines check_name fin
 
 (* tokens (partial): relative to a reference tokenizer [sigt] (significant tokens of a text, None if it
    does not lex) that has the CHUNKING property - the three hypotheses on sigt below, which are the
-   lexer stack's C07 chunking lemma - and to C06's echo statement, the significant tokens of the
+   lexer stack's C07 chunking lemma - and to the TOKEN-faithful echo of the lexer (C06: the echoed text
+   has the source's tokens; quoted strings may be re-spelled with the same denotation), the significant tokens of the
    cart's code are: the tokens of the package preamble, then for each table entry the tokens of its
    header line, of the package's echoed code and of `end`, then the tokens of the require()
    preamble, then the main program's tokens, unchanged.  Not discharged for the concrete stack
@@ -151,7 +154,7 @@ Theorem C14_tokens_partial : forall (T : Type) (sigt : bytes -> option (list T))
                      sigt (a ++ b) = Some (ta ++ tb)) ->
   (forall a ta, sigt a = Some ta -> sigt (a ++ [10]) = Some ta) ->
   sigt [] = Some [] ->
-  (forall ls q, parse_lines ls = Ok q -> concat (echo q) = concat ls) ->
+  (forall ls q, parse_lines ls = Ok q -> sigt (concat (echo q)) = sigt (concat ls)) ->
   (forall c, concat (file_lines c) = c) ->
   nl_line = [10] ->
   (forall n, ends_with_nl (header_line n) = true) ->
@@ -181,7 +184,7 @@ Proof. exact (build_code_tokens P parse_lines echo strip walk file_lines check_n
    top-level game loop function definitions) - every embedded package's tokens are its file's tokens,
    minus only what [sstrip] removes unless {use_game_loop=true} was in force when it was loaded *)
 Theorem C14_block_tokens_partial : forall (T : Type) (sigt : bytes -> option (list T)) (sstrip : list T -> list T),
-  (forall ls q, parse_lines ls = Ok q -> concat (echo q) = concat ls) ->
+  (forall ls q, parse_lines ls = Ok q -> sigt (concat (echo q)) = sigt (concat ls)) ->
   (forall c, concat (file_lines c) = c) ->
   (forall q q', strip q = Ok q' -> sigt (concat (echo q')) = option_map sstrip (sigt (concat (echo q)))) ->
   forall fuel main_path main_content r pk,
@@ -216,7 +219,7 @@ Theorem C14_tokens_partial_now : forall (T : Type) (sigt : bytes -> option (list
                      sigt (a ++ b) = Some (ta ++ tb)) ->
   (forall a ta, sigt a = Some ta -> sigt (a ++ [10]) = Some ta) ->
   sigt [] = Some [] ->
-  (forall ls q, from_lines ls = Ok q -> concat (echo_lines q) = concat ls) ->
+  (forall ls q, from_lines ls = Ok q -> sigt (concat (echo_lines q)) = sigt (concat ls)) ->
   forall cwd fs lua_path fuel main_path main_content out,
   build_code_now cwd fs lua_path fuel main_path main_content = Ok out ->
   exists r pk, build_lua_now cwd fs lua_path fuel main_path main_content = Ok (r, pk) /\
